@@ -2,7 +2,7 @@
 
 Spaces (DESIGN §5 C01): (A) all 65,536 class/ID pairs x short lengths x fills x 4 msgmodes x 2
 bitfield views; (B) every named class/ID x every payload length 0..nominal+16 x 4 fills x its
-modes + SETPOLL x 2 views; (C) extreme lengths up to 65,535.  Oracle on every accepted frame:
+modes + SETPOLL x 2 views; (C) extreme lengths up to 65,535; (D) consecutive pairs of frames with identical class/ID/length/checksum but different payloads.  Oracle on every accepted frame:
 serialize() == input; msg_cls / msg_id / length / payload equal the frame's fields;
 eval(repr(msg)) serializes to the same bytes.
 """
@@ -67,6 +67,25 @@ def eval_block(block, acc):
     elif kind == "B":
         log = set()
         it = FS.space_b_block(bytes.fromhex(block[1]), ents, block[2], log)
+    elif kind == "collide":
+        # pairs of different frames with the same class, ID, length and Fletcher checksum (+1,-2,+1 on three
+        # consecutive payload bytes), parsed one after the other in the same process
+        cid = bytes.fromhex(block[1])
+        pairs = []
+        for n in (3, 4, 8, 12, 28):
+            base = bytes((5 * i + 2) % 200 + 2 for i in range(n))
+            for i in range(0, n - 2):
+                alt = bytearray(base)
+                alt[i] += 1
+                alt[i + 1] -= 2
+                alt[i + 2] += 1
+                pairs.append((base, bytes(alt)))
+        it = []
+        for a, b in pairs:
+            assert ref.fletcher8(cid + len(a).to_bytes(2, "little") + a) == ref.fletcher8(cid + len(b).to_bytes(2, "little") + b)
+            for mode in (0, 1):
+                it.append((cid, a, mode, 1))
+                it.append((cid, b, mode, 1))
     else:
         it = FS.space_c()
     last = None
@@ -95,13 +114,14 @@ def run_tier(tier, t0):
     blocks = [("A", cls, lengths, fills) for cls in range(256)]
     blocks += [("B", cid.hex(), q) for cid in FS.known_clsids()]
     blocks.append(("C",))
+    blocks += [("collide", c) for c in ("0501", "0107", "0601", "9901", "0a04", "1340")]
     acc = engine.sweep(blocks, eval_block)
     engine.finish(
         PROP, tier, acc, t0, replay_case,
         rule=(
             f"(A) all 65,536 class/ID pairs x lengths {lengths} x fills {fills} x msgmode(4) x parsebitfield(2); (B) every named class/ID x "
             + ("lengths {0,1,2,nominal-1,nominal,nominal+1,nominal+16} x 3 fills (incrementing, ff, trailing NULs)" if q else "every length 0..nominal+16 x 6 fills")
-            + " x its modes + SETPOLL x 2 views (count-amplifying pairs at boundary lengths only, listed); (C) extreme lengths up to 65,535. "
+            + " x its modes + SETPOLL x 2 views (count-amplifying pairs at boundary lengths only, listed); (C) extreme lengths up to 65,535; (D) consecutive pairs of frames with identical class/ID/length/checksum but different payloads. "
             "states = distinct (class/ID, mode, verdict) of space B; distinct_nontrivial = distinct (class, mode, length class, verdict)"
         ),
         assumptions=["frames are built by the reference framing (independent Fletcher)", "a frame the parser refuses with a UBX error is outside C01 (C08 judges it)"],
